@@ -244,6 +244,16 @@ class Sample:
                 log.trace(f"[sam] ignoring {pos}: {ref}->{alt}")
                 return pos, None
 
+        def get_muts(pos, ref, alt):
+            if len(ref) == len(alt) > 1 and "N" not in self.gene[pos : pos + len(ref)]:
+                # multi-nucleotide substitution: one substitution per changed base
+                return [
+                    (pos + i, f"{self.gene[pos + i]}>{a}")
+                    for i, a in enumerate(alt)
+                    if a != self.gene[pos + i]
+                ]
+            return [get_mut(pos, ref, alt)]
+
         with pysam.VariantFile(vcf_path) as vcf:  # type: ignore
             self._prefix = chr_prefix(self.gene.chr, list(vcf.header.contigs))
 
@@ -262,14 +272,12 @@ class Sample:
                 g = sorted(y for y in read.samples[sample]["GT"] if y is not None)
                 if len(g) != 2 or self.gene[read.pos - 1] == "N":
                     continue  # ignore polyploid and incomplete cases
-                dump_arr = {}
                 if len(read.ref) == 1 and read.ref != self.gene[read.pos - 1]:
-                    hgvs = [(read.pos - 1, f"{self.gene[read.pos - 1]}>{read.ref}")]
+                    hgvs = [[(read.pos - 1, f"{self.gene[read.pos - 1]}>{read.ref}")]]
                 else:
-                    hgvs = [(read.pos - 1, "_")]
-                hgvs += [get_mut(read.pos - 1, read.ref, a) for a in read.alleles[1:]]
-                for gt in g:
-                    pos, op = hgvs[gt]
+                    hgvs = [[(read.pos - 1, "_")]]
+                hgvs += [get_muts(read.pos - 1, read.ref, a) for a in read.alleles[1:]]
+                for pos, op in (m for gt in g for m in hgvs[gt]):
                     if op is None or op == "_":
                         continue
                     if op.startswith("ins"):
@@ -281,25 +289,21 @@ class Sample:
                         continue
                     muts[pos, op] += [(40, 40)] * 10
                     norm[pos] = norm[pos][:-10]
-                    dump_arr[pos] = op
 
-                # Handle multi-SNPs
-                for pos, op in self._multi_sites.items():
-                    if pos not in dump_arr:
-                        continue
-                    l, r = op.split(">")
-                    if all(
-                        dump_arr.get(pos + p, "-") == f"{l[p]}>{r[p]}"
-                        for p in range(len(l))
-                        if l[p] != "."
-                    ):
-                        for p in range(len(l)):
-                            if l[p] != ".":
-                                np = pos + p, f"{l[p]}>{r[p]}"
-                                muts[np] = muts[np][:-10]
-                                if p:
-                                    norm[pos + p] += [(40, 40)] * 10
-                        muts[pos, op] += [(40, 40)] * 10
+            # Handle multi-SNPs: copies that show every substitution of a database
+            # multi-nucleotide variant (in one record or in adjacent records)
+            for pos, op in self._multi_sites.items():
+                l, r = op.split(">")
+                parts = [
+                    (pos + p, f"{l[p]}>{r[p]}") for p in range(len(l)) if l[p] != "."
+                ]
+                n = min(len(muts.get(np, [])) for np in parts)
+                if n > 0:
+                    for np in parts:
+                        muts[np] = muts[np][:-n]
+                        if np[0] != pos:
+                            norm[np[0]] += [(40, 40)] * n
+                    muts[pos, op] += [(40, 40)] * n
         return norm, muts
 
     def _load_dump(self, dump_path: str):
